@@ -633,6 +633,12 @@ def requirement(cx, n, facts, cur=None):
             # the left operand is promoted: width of the *result* type
             width = int_width(lt) or width
             ok = shift_ok(cx, facts, R, r, width)
+            # a shift whose result IS the function's result must be computed in (at least) the result's width: shifting a
+            # narrower operand loses the high bits / is undefined although the exact result is representable
+            top = F.top_function(cx.fn) if cx.fn is not None else None
+            rw = int_width((unit.ty(top.get("ret")) or "").replace("const ", "")) if top is not None else None
+            if rw and width and width < rw and n.get("k") == "binop" and n.get("op") == "<<":
+                return ("shift << computed in %d bits for a %d-bit result" % (width, rw), R, False, "operand as wide as the result")
             return ("shift %s" % n["op"], R, ok, "amount < %s" % width)
     if k == "unop" and n.get("op") == "*":
         # raw pointers used as container iterators (std::string_view, raw_vector): a local
